@@ -28,7 +28,8 @@ EXPLANATION = ("Rules over the MIR of server::HttpAcceptor::accept, HttpsAccepto
                "(`Option::None <- origin`) for a site that tests an Option/Result, whatever its spelling (unwrap / expect / let-else / match arm / combinator closure), else the callee or assert kind; "
                "closures, async blocks and inlined private helpers count "
                "with the function they are written in; foreign-macro expansions bucketed per function; debug_assert! bodies, match arms of an enum variant the scrutinee provably cannot "
-               "hold at that point, and the overflow assertion of `len(a) + len(b)` -- two object lengths cannot wrap usize -- are not sites).")
+               "hold at that point, the overflow assertion of `len(a) + len(b)` -- two object lengths cannot wrap usize -- and full-range indexing `x[..]` of a slice / array / str / String / Vec are not sites; "
+               "a site that is not on the table is accepted when evaluating its function on every value of its field-less enum parameters shows the tested value is never the panicking variant).")
 TRUSTED = ["rustc nightly MIR + const evaluation", "mirfacts extractor", "rules/engine.py + rules/lib_c16.py + rules/lib_c18.py + rules/lib_c13.py (what a panic site tests) + rules/lib_c10.py (_sum_of_two_lengths) + rules/absint.py / rules/lib_c07.py StrInterp (evaluation of constant-table lookups)", "tables/c18_panics.txt (each line reviewed)", "tokio / hyper / async-stream semantics"]
 
 TABLE = os.path.join(VERIF, "tables", "c18_panics.txt")
@@ -464,6 +465,11 @@ SELFTEST = [
      "edits": [(_S, "async fn http_request_handle<C: ServerContext>(", _mode_table(["Detached", "CancelOnDisconnect"])), (_S, _MODE_USE_OLD, _MODE_USE_NEW)]},
     {"name": "partial-lookup-in-constant-table", "kind": "mutant", "why": "the same lookup in a table that lacks an entry for CancelOnDisconnect: with that task mode every request panics its connection task",
      "edits": [(_S, "async fn http_request_handle<C: ServerContext>(", _mode_table(["Detached"])), (_S, _MODE_USE_OLD, _MODE_USE_NEW)],
+     "expect": ["C18.R4"]},
+    {"name": "full-range-index", "kind": "benign", "why": "no new way to panic: `&s[..]` (Index<RangeFull> on str) selects the whole string and cannot be out of bounds -- not a census site",
+     "edits": [(_S, "        http::header::HeaderValue::from_str(&request_id).unwrap(),\n", "        http::header::HeaderValue::from_str(&request_id[..]).unwrap(),\n")]},
+    {"name": "partial-range-index", "kind": "mutant", "why": "`&s[1..]` can be out of bounds / off a char boundary: a new, unreviewed potential panic on the request path",
+     "edits": [(_S, "        http::header::HeaderValue::from_str(&request_id).unwrap(),\n", "        http::header::HeaderValue::from_str(&request_id[1..]).unwrap(),\n")],
      "expect": ["C18.R4"]},
     {"name": "sleep-tuned", "kind": "benign", "why": "property-preserving: back-off after a resource-exhaustion accept error changed from 100 ms to 50 ms",
      "edits": [(_S, "                        tokio::time::sleep(std::time::Duration::from_millis(\n                            100,\n                        ))", "                        tokio::time::sleep(std::time::Duration::from_millis(\n                            50,\n                        ))")]},
